@@ -68,6 +68,10 @@ pub struct Spec {
     /// SampleGenerator builder, 2 generate_sample with the paths taken from SWIFT_SCENARIO_PATH
     #[serde(default)]
     pub sample_api: u8,
+    /// path "interleaved": the Message's target fields already hold objects from earlier use
+    /// (a reused pipeline message) before the first task runs
+    #[serde(default)]
+    pub stale_targets: bool,
 }
 
 /// An overlay scenario directory: `<verif>/work/overlay/mtNNN/zz_overlay_only.json` for every type.
@@ -246,7 +250,27 @@ fn run_task(t: usize, msg: &mut Message, in_place: bool) -> Result<(), String> {
 /// legal workflow.
 fn run_interleaved(scs: &[scen::Scenario], spec: &Spec, ctx: &Arc<seam::RunCtx>, out: &mut Outcome) {
     let k = spec.callers.clamp(1, 3);
-    let msgs: Arc<Vec<Mutex<Message>>> = Arc::new(scs.iter().map(|s| Mutex::new(Message::from_value(&s.value))).collect());
+    let msgs: Arc<Vec<Mutex<Message>>> = Arc::new(
+        scs.iter()
+            .map(|s| {
+                let mut m = Message::from_value(&s.value);
+                if spec.stale_targets {
+                    // what an earlier use of the same Message may have left under the target names
+                    let stale = json!({"leftover_member": {"x": 1}, "fields": {"99Z": "stale", "20": {"reference": "STALE"}}, "user_header": {"unique_end_to_end_reference": "00000000-0000-4000-8000-000000000000"}});
+                    if let Some(o) = m.data_mut().as_object_mut() {
+                        o.insert("mt_json".into(), stale.clone());
+                        o.insert("validation_result".into(), json!({"valid": false, "errors": ["stale finding"], "stale": true}));
+                        o.insert("sample_json".into(), stale);
+                    }
+                    m.invalidate_context_cache();
+                }
+                Mutex::new(m)
+            })
+            .collect(),
+    );
+    if spec.stale_targets {
+        out.count("config.message_with_stale_target_fields", 1);
+    }
     let mut cmd_tx = vec![];
     let mut resp_rx = vec![];
     let mut handles = vec![];
@@ -743,6 +767,7 @@ impl Engine for C15 {
             },
             overlay: wl.chance(1, 2),
             sample_api: wl.below(3) as u8,
+            stale_targets: path == "interleaved" && wl.chance(1, 4),
         }
     }
 
@@ -886,6 +911,11 @@ impl Engine for C15 {
         if spec.overlay {
             let mut s = spec.clone();
             s.overlay = false;
+            v.push(s);
+        }
+        if spec.stale_targets {
+            let mut s = spec.clone();
+            s.stale_targets = false;
             v.push(s);
         }
         if !spec.in_place.is_empty() {
